@@ -12,11 +12,11 @@ CHECKS = {
          "Two parts. (1) seqx: programs of up to 3 real frames (8 B to 9 KB) queued before chosen write calls, written through the real write_to_stream into a scripted transport under every placement of up to 2 (thorough: 3) cuts (short accept / would-block / error). (2) simx: a live connection with two writer threads and the connection thread over a transport that answers every write call short (then stalls until granted) or starts stalled, every decision sequence with at most 2 (thorough 3) deviations: the wire must be header + whole frames, each channel's frames exactly its program in order, nothing lost or duplicated, no stalled write (deadlock check).",
          "Bounds: 3 threads, 2 writer channels, programs of 5 operations; scheduling granularity is channel/poll operations; the transport is a model of an edge-triggered non-blocking socket (DESIGN.md 5.2).",
          "DESIGN.md §6 C01", "seqx+simx"),
- "C02": ("exploration",
-         "complete cartesian enumeration of publishes through the real Channel/ChannelHandle with the hand-over queue tapped, frames split by an independent envelope parser",
-         "frame_max x 12 (thorough 18) body lengths around multiples of the payload limit x mandatory x immediate x name classes, all 2^14 property subsets, boundary property values and pairs of consecutive publishes; checks method fields, header size and properties, body concatenation, per-frame size limit, absence of empty/extra body frames and contiguity.",
-         "Observed at the queue to the I/O thread, i.e. before the write path (C01 covers that).",
-         "DESIGN.md §6 C02", "seqx"),
+ "C02": ("model_checking",
+         "complete cartesian enumeration of publishes through the real Channel/ChannelHandle with the hand-over queue tapped, frames split by an independent envelope parser, plus deviation-bounded exploration of two publishers on a live connection under partial writes and stalls",
+         "frame_max x 12 (thorough 18) body lengths around multiples of the payload limit x mandatory x immediate x name classes, all 2^14 property subsets, boundary property values and pairs of consecutive publishes; checks method fields, header size and properties, body concatenation, per-frame size limit, absence of empty/extra body frames and contiguity. simx scenario pubwire: two threads publish six messages each (0, 1, frame_max-8, frame_max-7, 9000 and 3 bytes at frame_max 4096, different names, flags and properties) while the transport accepts writes in part and stalls; within 2 (thorough 3) deviations the accepted byte stream must carry every message exactly as published, contiguous and in order per channel.",
+         "The cartesian sweep observes the queue to the I/O thread; the write path is exercised by pubwire for one fixed set of twelve messages.",
+         "DESIGN.md §6 C02", "seqx+simx"),
  "C03": ("model_checking",
          "explicit-state BFS over valid server histories through the real collector/dispatch (probe) with a reference reassembler, plus deviation-bounded exploration of frame-by-frame deliveries into a live connection",
          "seqx: complete reachable state graph (825 states, closed before the depth bound) of Deliver/GetOk/Return, Header(size 0..3, +-properties), Body(1..remaining) on two channels in every per-channel-valid continuation and every cross-channel interleaving; after every frame everything every addressee received (full message content) equals the reference. simx: five messages (a 3-byte body in every partition, 0/1/2-byte bodies, with/without properties, a never-drained consumer, a get, a return) pushed frame by frame with cross-channel interleavings and delivery cuts within 2 (thorough 3) deviations, observed through Consumer::receiver, basic_get and listen_for_returns.",
